@@ -1,1 +1,91 @@
-fn main() { eprintln!("not built yet"); std::process::exit(2); }
+//! vx-sim: engines A/B/C/F — scenarios driven through a real `turmoil::Sim`.
+
+mod c02;
+mod flow;
+mod kit;
+
+use std::time::Duration;
+
+use serde_json::json;
+use vx_core::report::{Report, Tier};
+use vx_core::{explore_dfs, DfsConfig};
+
+fn run_dfs<F>(rep: &mut Report, name: &str, dev: u32, wall: Duration, f: F)
+where
+    F: Fn(&mut vx_core::Chooser) -> vx_core::dfs::Exec + Sync,
+{
+    let mut d = DfsConfig::new(name, dev);
+    d.wall = wall;
+    let st = explore_dfs(&d, f);
+    for s in st.samples.iter().take(2) {
+        rep.sample(json!({"part": name, "choices": s}));
+    }
+    rep.violations.extend(st.violations);
+    rep.add_part(st.part);
+}
+
+fn main() {
+    vx_core::install_quiet_panic_hook();
+    let args: Vec<String> = std::env::args().collect();
+    if args.len() < 3 {
+        eprintln!("usage: vx-sim <Cxx> <quick|thorough> | vx-sim replay <file>");
+        std::process::exit(2);
+    }
+    if args[1] == "replay" {
+        replay(&args[2]);
+        return;
+    }
+    let tier = Tier::parse(&args[2]);
+    let thorough = tier == Tier::Thorough;
+    let wall = tier.pick(Duration::from_secs(45), Duration::from_secs(900));
+    match args[1].as_str() {
+        "C02" => {
+            let mut rep = Report::new("C02", tier, "model_checking", "sim");
+            rep.rule = "stateless deviation-bounded enumeration: writer policy grid (capacity, chunking, write_all/try_write, close mode, reader buffers incl. 0 and peek, topology, split halves, reader start) x per-round choices on a permanently held link (which in-flight message is delivered, whether the reader reads); prefix/EOF safety on every read, delivery + EOF after a fair suffix".into();
+            run_dfs(&mut rep, "tcp-stream-held-link", tier.pick(2, 3), wall, move |ch| c02::scenario(ch, thorough));
+            rep.finish();
+        }
+        "C08" => {
+            let mut rep = Report::new("C08", tier, "model_checking", "sim");
+            rep.rule = "stateless deviation-bounded enumeration: hold/release placed at every step (<=2 cycles, from the Sim handle by name or regex, or from host code), manual delivery of any held message or deliver_all as deviations, numbered UDP datagrams A<->B and A->C every step with a fixed 2-tick latency; receive logs (id, source, step) compared with a step-granular reference, Sim::links compared with the reference in-flight set".into();
+            run_dfs(&mut rep, "hold-release-3hosts", tier.pick(2, 3), wall, move |ch| flow::c08_scenario(ch, thorough));
+            rep.finish();
+        }
+        "C03" => {
+            let mut rep = Report::new("C03", tier, "model_checking", "sim");
+            rep.rule = "stateless enumeration of every sequence of <=2 (quick) / <=3 (thorough) partition / partition_oneway / repair / repair_oneway calls at every step, from the Sim handle or host code, either registration order of A and B, numbered UDP datagrams every step with a fixed 2-tick latency; with fail/repair rates 0.5 the link coins are answered by the explorer through the cfg-guarded hook (deviation-bounded); forbidden datagrams must never be received, others exactly once on time (fail rate 0)".into();
+            run_dfs(&mut rep, "partitions-3hosts", tier.pick(2, 3), wall, move |ch| flow::c03_scenario(ch, thorough));
+            rep.finish();
+        }
+        other => vx_core::machinery_error(&format!("vx-sim does not serve {other}")),
+    }
+}
+
+fn replay(path: &str) {
+    let txt = std::fs::read_to_string(path).unwrap_or_else(|e| vx_core::machinery_error(&format!("{e}")));
+    let v: serde_json::Value = serde_json::from_str(&txt).unwrap();
+    let prop = v["property"].as_str().unwrap_or("").to_string();
+    let choices: Vec<u32> = v["choices"].as_array().map(|a| a.iter().map(|x| x.as_u64().unwrap_or(0) as u32).collect()).unwrap_or_default();
+    println!("replaying {prop}: scenario {}", v["scenario"]);
+    let mut ch = vx_core::Chooser::from_choices(&choices);
+    let thorough = v["scenario"].as_str().map(|s| s.contains("tier=thorough")).unwrap_or(false);
+    let e = match prop.as_str() {
+        "C02" => c02::scenario(&mut ch, thorough),
+        "C08" => flow::c08_scenario(&mut ch, thorough),
+        "C03" => flow::c03_scenario(&mut ch, thorough),
+        _ => vx_core::machinery_error("unknown property in replay file"),
+    };
+    for l in ch.describe() {
+        println!("  choice {l}");
+    }
+    match e.violation {
+        Some(v) => {
+            for a in &v.actions {
+                println!("  {a}");
+            }
+            println!("VIOLATION clause={} : {}", v.clause, v.detail);
+            std::process::exit(1);
+        }
+        None => println!("no violation on this execution"),
+    }
+}
